@@ -1338,6 +1338,14 @@ func violate(rep *vh.Report, v vh.Violation) {
 }
 
 func main() {
+	if len(os.Args) == 6 && os.Args[1] == "single-child" {
+		var p singleParams
+		fmt.Sscanf(os.Args[2], "%d", &p.Rounds)
+		fmt.Sscanf(os.Args[3], "%d", &p.PerRound)
+		fmt.Sscanf(os.Args[4], "%d", &p.Seed)
+		singleChild(p, os.Args[5])
+		return
+	}
 	if len(os.Args) == 4 && os.Args[1] == "e2e-child" {
 		e2eChild(os.Args[2], os.Args[3])
 		return
@@ -1364,6 +1372,7 @@ func main() {
 	orcProp := vh.NewOracle("bulk.property", "grammar bodies through the real handler; expectation from the generator: accepted => exactly the in-limit object lines stored in order byte for byte, items = count, one store call, meta size = len, ID time by the rule; a reachable invalid line => not 200 and nothing stored; non-trivial = some but not all document lines stored")
 	orcTime := vh.NewOracle("bulk.timerule", "Ingestor.ProcessDocuments with exact request time: MID = own time iff parsed and -future <= req-doc <= past (big-integer arithmetic), else receive time; boundaries +-1ns/+-1ms, years 1..9999; non-trivial = time field parsed")
 
+	orcSingle := vh.NewOracle("bulk.single", "single-binary mode (child process): real storeapi.NewStore + in-memory StoreApiClient + SeqDBClient + bulk.Ingestor + BulkHandler; the store's index workers are parked at c07.aidx.start while a burst of one-document bulks (up to workers + queue length) is accepted, then released, several rounds; every accepted document must be found by its own token exactly once and fetched with its own bytes, and the process must survive; non-trivial = at least one bulk accepted")
 	orcE2E := vh.NewOracle("bulk.e2e", "real HTTP POST /_bulk (plain or gzip) into tests/setup.TestingEnv (ingestor + store, child process), then search by a per-request tag with fetch: accepted => exactly the qualifying documents can be fetched, byte for byte, items = count, ID times by the rule; rejected => nothing can be fetched; non-trivial = at least one document stored")
 
 	now := time.Now().UTC()
@@ -1404,6 +1413,9 @@ func main() {
 					lineCase(string(b), chProc, orcLines, orcProp, rep)
 				}
 			}
+			if p, ok := parseSingle(l); ok {
+				runSingle(p, orcSingle, rep)
+			}
 			if c, ok := parseE2ECase(l); ok {
 				runE2E([]e2eCase{c}, orcE2E, rep)
 			}
@@ -1418,6 +1430,7 @@ func main() {
 		rep.AddOracle(orcProp)
 		rep.AddOracle(orcTime)
 		rep.AddOracle(orcE2E)
+		rep.AddOracle(orcSingle)
 		rep.Write(o.Out)
 		return
 	}
@@ -1803,6 +1816,12 @@ func main() {
 			rep.AddChannel(ch, o.Driver)
 		}
 	}
+	if want("bulk.single") {
+		runSingle(singleParams{Rounds: o.Pick(2, 8), PerRound: 24, Seed: o.Seed}, orcSingle, rep)
+		if o.Thorough() {
+			runSingle(singleParams{Rounds: 3, PerRound: 9, Seed: o.Seed + 1}, orcSingle, rep)
+		}
+	}
 	if want("bulk.e2e") {
 		runE2E(genE2ECases(rng.Fork(), o.Pick(12, 150), now), orcE2E, rep)
 	}
@@ -1810,6 +1829,7 @@ func main() {
 	rep.AddOracle(orcProp)
 	rep.AddOracle(orcTime)
 	rep.AddOracle(orcE2E)
+	rep.AddOracle(orcSingle)
 	rep.AddOracle(orcIndex)
 	rep.AddOracle(orcConfig)
 	rep.AddOracle(orcLines)
